@@ -181,6 +181,14 @@ bmph('ImageHeader_IsValidBitCount', ['C08', 'C11']); bmph('ImageHeader_IsIndexed
 bmph('BitmapFile_CreateIndexed', ['C08', 'C11', 'C09'], reach=EXC2, replace=['BitmapFile_ctor0', 'vec_Color_resize', 'vec_u8_resize', 'ImageHeader_Create', 'ImageHeader_CalcMaxIndexedPaletteSize0', 'ImageHeader_CalculatePitch0', 'BmpHeader_Create'],
      flags=['--object-bits', '12'], timeout=600, trusted=['BitmapFile default constructor and vector resize as assumed abstract contracts'],
      what='CreateIndexed(bitCount, width, height): no undefined arithmetic for any height; headers, palette size and pixel size agree')
+BR_T = [KR_TRUST, 'vector clear / resize and the BitmapFile default constructor as assumed abstract contracts']
+BR_R = ['Rd_Read', 'Rd_Length', 'vec_Color_clear', 'vec_u8_clear', 'vec_Color_resize', 'vec_u8_resize', 'BitmapFile_ctor0']
+bmph('BitmapFile_ReadBmpHeader', ['C08', 'C11'], reach=EXC2, replace=BR_R + ['BmpHeader_VerifyFileSignature'], trusted=BR_T)
+bmph('BitmapFile_ReadImageHeader', ['C08', 'C11'], reach=EXC2, replace=BR_R + ['ImageHeader_Validate', 'BitmapFile_VerifyIndexedImageForSerialization'], trusted=BR_T)
+bmph('BitmapFile_ReadPalette', ['C08', 'C11'], reach=EXC2, replace=BR_R + ['ImageHeader_CalcMaxIndexedPaletteSize0'], trusted=BR_T, flags=['--object-bits', '12'])
+bmph('BitmapFile_ReadPixels', ['C08', 'C11'], reach=EXC2, replace=BR_R + ['BitmapFile_VerifyPixelSizeMatchesImageDimensionsWithPitch'], trusted=BR_T, flags=['--object-bits', '12'])
+bmph('BitmapFile_ReadIndexed', ['C08', 'C11', 'C09'], reach=EXC2, replace=BR_R + ['BitmapFile_ReadBmpHeader', 'BitmapFile_ReadImageHeader', 'BitmapFile_ReadPalette', 'BitmapFile_ReadPixels'], trusted=BR_T, flags=['--object-bits', '12'], timeout=600,
+     what='indexed bitmap loader on arbitrary bytes: safe, short inputs refused, exact consumption, result satisfies the object invariant I_B')
 bmph('BitmapFile_WritePixels', ['C08'], reach=EXC2, replace=['Wr_Write', 'vec_u8_ctor_fill', 'ImageHeader_CalculatePitch', 'ImageHeader_CalcPixelByteWidth'], loop_contracts=False, flags=['--unwind', '5', '--unwinding-assertions', '--object-bits', '12'],
      bounded='bitmaps of at most 3 rows (width, depth and pixel bytes symbolic)', timeout=600, trusted=[WR_TRUST, 'std::vector<uint8_t>(n, 0) as an assumed abstract contract'],
      what='bounded stand-in: pixel section = rows padded with zeros to the pitch, total pitch * |height| bytes')
@@ -243,21 +251,21 @@ REL('sprh', 'TilesetHeader_Create', 'value', 'TilesetHeader', nbytes=28)
 REL('sprh', 'PpalHeader_Create', 'value', 'PpalHeader', nbytes=20)
 REL('sprh', 'PaletteHeader_CreatePaletteHeader', 'value', 'PaletteHeader', nbytes=28)
 
-claim('C08', 'Bitmap geometry proved over the full 32-bit domain against an independent integer spec: CalcPixelByteWidth = ceil(w*bpp/8), CalculatePitch = smallest multiple of 4 >= row bytes, the pixel-size check accepts exactly pitch*|height| bytes and refuses negative widths and height INT32_MIN; ImageHeader::Validate / Create, BmpHeader::Create / signature checks, palette-size check and AbsoluteHeight proved by contract; CreateIndexed(bitCount, width, height) proved free of undefined arithmetic for every height (after fix D20: INT32_MIN refused) with headers, palette size and pixel size in agreement. Bounded stand-in: WritePixels writes rows padded with zeros to the pitch, pitch*|height| bytes in total (<= 3 rows, width/depth/pixels symbolic).',
-      'NOT decided: ReadIndexed / WriteIndexed header plumbing, InvertScanLines (vector insert/move outside the extractor), the 4- and 5-argument CreateIndexed overloads, pixel round trip. ASSUMED: vector resize, BitmapFile default constructor.')
+claim('C08', 'Bitmap geometry proved over the full 32-bit domain against an independent integer spec: CalcPixelByteWidth = ceil(w*bpp/8), CalculatePitch = smallest multiple of 4 >= row bytes, the pixel-size check accepts exactly pitch*|height| bytes and refuses negative widths and height INT32_MIN; ImageHeader::Validate / Create, BmpHeader::Create / signature checks, palette-size check and AbsoluteHeight proved by contract; CreateIndexed(bitCount, width, height) proved free of undefined arithmetic for every height (after fix D20: INT32_MIN refused) with headers, palette size and pixel size in agreement; the indexed reader (ReadBmpHeader, ReadImageHeader, ReadPalette, ReadPixels, ReadIndexed) proved on arbitrary bytes: safe, inputs shorter than the headers refused, exact consumption 54 + 4*|palette| + |pixels|, and every returned object satisfies the invariant I_B (non-negative width, height other than INT32_MIN, |pixels| = pitch*|height|, palette within the depth). Bounded stand-in: WritePixels writes rows padded with zeros to the pitch, pitch*|height| bytes in total (<= 3 rows, width/depth/pixels symbolic).',
+      'NOT decided: WriteIndexed / WriteHeaders plumbing, InvertScanLines (vector insert/move outside the extractor), the 4- and 5-argument CreateIndexed overloads, pixel round trip. ASSUMED: vector resize, BitmapFile default constructor.')
 claim('C09', 'Custom tileset header constants and validators proved against an independent description of the format (PBMP / head 0x14, tag count 2, width 32, depth 8, flags 8 / PPAL 1048, head 4, tag count 1 / data 1024 / data 32*h): TilesetHeader::Create/Validate, PpalHeader::Create/Validate, the three section validators, CalculatePixelHeaderLength, CalculatePbmpSectionSize, ValidateTileset (8 bit, width 32, height multiple of 32 in either orientation); Peek proved not to move the position (K_R); PeekIsCustomTileset proved to leave the stream where it stands at ANY position and to answer exactly "next four bytes are PBMP"; WriteCustomTileset proved against the format description (total length; PBMP length, pixel height and pixel-section length byte by byte; palette entry gi with red/blue exchanged; non-tilesets refused with nothing written); SwapPaletteRedAndBlue proved for every entry of a palette of any length; ReadCustomTileset proved on arbitrary bytes: memory safe, no undefined arithmetic (after fix D20), short inputs refused, exact consumption 1096 + |pixels|, result 8 bit / 32 wide / height a multiple of 32 / 256 colours / 32*|height| pixel bytes.',
       'ASSUMED: BitmapFile::InvertScanLines (negates height, same pixel count), BitmapFile::SwapRedAndBlue (frame). NOT decided: pixel and palette CONTENT through read and write (the picture round trip), orientation of the loaded picture for headers announcing more than 2^31 rows, tilesets of more than 2^27 - 64 rows (4 GiB; the 32-bit length fields wrap and the writer does not refuse). One trusted constant: PBMP section length 1068 + 32*h cannot be confirmed against the game offline.')
 claim('C10', 'PRT cross-field rule check (ValidateImageMetadata: scan line = width rounded up to 4, palette index names an existing palette) proved with a loop contract for any number of images; canonical palette header (PPAL 1048 / head 4 / 1 / data 1024) and its validator proved; SectionHeader constructors/validator proved; ReadFrame / WriteFrame proved against the frame grammar for every flag combination and count; ReadAnimations proved memory safe on arbitrary bytes and to run the count verification on EVERY normal return with exactly the totals the section header announces (also for files without animations).',
       'ASSUMED: ReadAnimation, VerifyCountsMatchHeader / CountFrames, vector resize (abstract contracts; Animation is an opaque placeholder in the unit). NOT decided: CountFrames arithmetic, palette channel swap on read/write, structure round trip.')
-claim('C11', 'Validators that guard the loaders are proved total and exact (every header validator throws iff a checked field deviates; image index check refuses index >= count; pixel-size check refuses negative width / INT32_MIN height); all with CBMC memory-safety and arithmetic checks on. Loader bodies proved on arbitrary bytes: ReadCustomTileset (safe, exact consumption, result satisfies the tileset invariant; found and fixed D20: abs(INT32_MIN) reachable from a 1096-byte file), PeekIsCustomTileset, ArtFile::ReadFrame, ArtFile::ReadAnimations, BitmapFile::CreateIndexed for every height.',
-      'NOT decided: ReadIndexed, ArtFile::ReadPalette / ReadImageMetadata / ReadAnimation bodies, SpriteLoader::ExtractImage (shared_ptr / chained temporaries: outside the extractor), follow-up operations InvertScanLines / WriteIndexed on loaded objects; resource exhaustion.')
+claim('C11', 'Validators that guard the loaders are proved total and exact (every header validator throws iff a checked field deviates; image index check refuses index >= count; pixel-size check refuses negative width / INT32_MIN height); all with CBMC memory-safety and arithmetic checks on. Loader bodies proved on arbitrary bytes: ReadCustomTileset (safe, exact consumption, result satisfies the tileset invariant; found and fixed D20: abs(INT32_MIN) reachable from a 1096-byte file), BitmapFile::ReadIndexed and its four steps (result satisfies I_B), PeekIsCustomTileset, ArtFile::ReadFrame, ArtFile::ReadAnimations, BitmapFile::CreateIndexed for every height.',
+      'NOT decided: ArtFile::ReadPalette / ReadImageMetadata / ReadAnimation bodies, SpriteLoader::ExtractImage (shared_ptr / chained temporaries: outside the extractor), follow-up operations InvertScanLines / WriteIndexed on loaded objects; resource exhaustion.')
 claim('C18', 'Two-run relational checks (uninitialised storage is independent nondeterministic data in each run) prove that every byte of each record built by the record constructors is determined by the arguments: MapHeader, Map (all serialised members incl. clipRect), ImageHeader::Create, BmpHeader::Create, SectionHeader, TilesetHeader::Create, PpalHeader::Create, PaletteHeader::CreatePaletteHeader.',
       'NOT decided yet: VOL/CLM record constructors, partially-assigning parsers (ReadFrame, ReadTilesetSources), writers byte-exact postconditions; input order / path spelling (std::sort, std::filesystem).')
 NOT_DECIDED.update({
- 'C08': ['ReadIndexed/WriteIndexed plumbing, InvertScanLines, CreateIndexed 4/5-argument overloads, pixel round trip', 'WritePixels: bounded (<= 3 rows)'],
+ 'C08': ['WriteIndexed/WriteHeaders plumbing, InvertScanLines, CreateIndexed 4/5-argument overloads, pixel round trip', 'WritePixels: bounded (<= 3 rows)'],
  'C09': ['pixel/palette content through read and write (picture round trip)', 'tilesets above 2^27 - 64 rows', 'PBMP length constant vs the game (trusted)'],
  'C10': ['CountFrames arithmetic, palette swap on read/write, structure round trip'],
- 'C11': ['ReadIndexed, ReadPalette/ReadImageMetadata/ReadAnimation bodies, SpriteLoader::ExtractImage', 'follow-up operations on loaded objects; resource exhaustion'],
+ 'C11': ['ArtFile ReadPalette/ReadImageMetadata/ReadAnimation bodies, SpriteLoader::ExtractImage', 'follow-up operations on loaded objects; resource exhaustion'],
  'C12': ['typed container/string helpers of Reader.h (Read(container&), Read<SizeType>, ReadNullTerminatedString)', 'FileReader against the std::ifstream model'],
  'C13': ['independence of two OS file descriptions (assumed)', 'archive member streams'],
  'C14': ['DynamicMemoryWriter, Write<SizeType>, Write(Reader&) copy loop, FileWriter::TranslateFlags'],
